@@ -258,6 +258,18 @@ CONTAINER_CASES = [
     ("B.dict-ctor-pairs", "lambda B, anp, p: (lambda d: d['u'] * d['v'] + d['v'] * 3)(B.dict([('v', p[0] * 2), ('u', p[1])]))", "(S(), S())"),
     ("unused-leaf", "lambda B, anp, p: p[0] * 3", "(S(), S(2), {'k': S()})"),
     ("returns-container", "lambda B, anp, p: B.tuple((p[0] * p[1], [p[1] * 2]))[1][0] * p[0]", "(S(), S())"),
+    # dict keys that are integers (not positions): negative, >= len, non-contiguous
+    ("dict-int-keys", "lambda B, anp, p: p[1] * 2 + p[3] * p[1] * 5", "{1: S(), 3: S()}"),
+    ("dict-negative-int-keys", "lambda B, anp, p: p[-1] * 2 + p[0] * 3 + p[-1] * p[0]", "{-1: S(), 0: S()}"),
+    ("dict-int-keys-order", "lambda B, anp, p: p[2] * 2 + p[0] * 3 + p[1] * 5", "{2: S(), 0: S(), 1: S()}"),
+    ("dict-tuple-keys", "lambda B, anp, p: p[(0, 1)] * 2 + p[(1, 0)] * p[(0, 1)]", "{(0, 1): S(), (1, 0): S()}"),
+    # the same container concatenated twice / a concatenation used twice / lists are never extended in place
+    ("list+list twice", "lambda B, anp, p: (lambda q, r: q[2] * 2 + r[2] * 3 + len(q) * q[0] + len(r) * r[1] + len(p) * p[0])(p + [p[0] * 2], p + [p[1] * 3])", "[S(), S()]"),
+    ("list concat chain", "lambda B, anp, p: (lambda q: (lambda r: r[0] * 2 + r[2] * 3 + r[3] * 5 + len(q) * q[1])(q + [p[1] * 7]))(p + [p[0] * 2])", "[S(), S()]"),
+    ("tuple used three times", "lambda B, anp, p: (lambda t: t[0] * 100 + t[1] * 9)(p) + (lambda t: t[0] * 10 + t[1] * 9)(p) + (lambda t: t[0] + t[1] * 9)(p)", "(S(), S())"),
+    ("tuple concatenated three times (three dense container cotangents)", "lambda B, anp, p: (lambda q, r, s: q[0] * 100 + q[1] * 9 + q[2] + r[0] * 10 + r[1] * 9 + r[2] + s[0] + s[1] * 9 + s[2])(p + (p[0] * 2,), p + (p[1] * 3,), p + (Kc(5),))", "(S(), S())"),
+    ("list concatenated four times, nested leaves", "lambda B, anp, p: sum((i + 2) * (q[0][0] * 3 + q[0][1] + anp.sum(q[1]) + q[2]) for i, q in enumerate([p + [p[0][0]], p + [p[0][1]], p + [Kc(1)], p + [p[0][0] * 2]]))", "[(S(), S()), S(2)]"),
+    ("nested tuple used three times", "lambda B, anp, p: p[0][0] * 100 + p[0][1] * 9 + p[0][0] * 10 + p[1] * p[0][1] + p[0][0] + p[0][1] * 9", "((S(), S()), S())"),
 ]
 
 
